@@ -203,10 +203,12 @@ def ssp(check, proj):
 def driver_cfl(check):
     """the CFL premise of the statement concerns the step a solve actually takes: the minimum over cells of
     CFL*dx/lambda of the CURRENT state, in both public drivers (same obligations as C18 DRV-DT-MIN)"""
-    from ..driver_rules import analyse_solve
+    from ..driver_rules import analyse_solve, analyse_entry_points
     from .c07 import report
     res, _ = analyse_solve(check.proj)
-    report(check, res, ("DRV-DT-MIN",))
+    # ... with the options of THIS call (a `dtlocal` remembered from an earlier call replaces the global step by per-cell ones)
+    analyse_entry_points(check.proj, res)
+    report(check, res, ("DRV-DT-MIN", "DRV-FORWARD"))
 
 
 def body(check):
